@@ -3,6 +3,7 @@ package main
 // Environment models for everything outside package cose (DESIGN.md §4).
 
 import (
+	"bytes"
 	"crypto/elliptic"
 	"fmt"
 	"go/types"
@@ -65,7 +66,9 @@ func init() {
 		"(*math/big.Int).Set",
 		"(crypto.Hash).Available", "(crypto.Hash).New", "(crypto.Hash).Size", "(crypto.Hash).HashFunc",
 		"crypto/ecdsa.Sign", "crypto/ecdsa.Verify", "crypto/ecdsa.SignASN1", "(*crypto/ecdsa.PrivateKey).Sign",
-		"(*crypto/ecdsa.PublicKey).ECDH",
+		"(*crypto/ecdsa.PublicKey).ECDH", "(*crypto/ecdsa.PrivateKey).ECDH", "(*crypto/ecdh.PrivateKey).PublicKey",
+		"(*crypto/ecdh.PublicKey).Bytes", "(*crypto/ecdh.PrivateKey).Bytes", "bytes.TrimLeft",
+		"(*sync.Pool).Get", "(*sync.Pool).Put",
 		"crypto/rsa.VerifyPSS", "(*crypto/rsa.PrivateKey).Sign",
 		"crypto/ed25519.Verify", "crypto/ed25519.NewKeyFromSeed", "(crypto/ed25519.PrivateKey).Sign",
 		"encoding/asn1.Unmarshal", "encoding/asn1.Marshal",
@@ -371,6 +374,11 @@ func curveNameOf(v Value) string {
 
 // pubKeyID gives a structural identity of an *ecdsa.PublicKey value (struct Curve,X,Y).
 // ecKeyTerms: the semantic identity of an EC public key: (curve id, X, Y) as 64 / 528 / 528-bit terms
+type ecdhPoint struct {
+	curve string
+	x, y  *Term
+}
+
 func (e *Engine) ecKeyTerms(pub *StructV) (*Term, *Term, *Term) {
 	cn := curveNameOf(pub.fields[0])
 	x, _ := e.bigOf(pub.fields[1])
@@ -748,7 +756,10 @@ func (e *Engine) callStub(name string, recv Value, args []Value) Value {
 		hs := recv.(PtrV).cell.val.(OpaqueV).data.(*hashState)
 		dig := e.hashOf(hs.h, hs.data)
 		pre := args[0].(BytesV)
-		return e.bytesFromRope(ropeConcat(e.bytesRope(pre), dig))
+		if pre.obj == nil {
+			return e.bytesFromRope(dig)
+		}
+		return e.appendOp(pre, e.bytesFromRope(dig)) // Sum appends (in place when the capacity allows)
 
 	// ---- ecdsa ----------------------------------------------------------------------------------------
 	case "crypto/ecdsa.Sign":
@@ -802,7 +813,90 @@ func (e *Engine) callStub(name string, recv Value, args []Value) Value {
 		if !e.branch(valid) {
 			return TupleV{PtrV{}, e.mkErr("ecdsa: invalid public key")}
 		}
-		return TupleV{PtrV{cell: e.newCell(OpaqueV{kind: "ecdh.PublicKey"}, "ecdh")}, Iface{}}
+		return TupleV{PtrV{cell: e.newCell(OpaqueV{kind: "ecdh.PublicKey", data: ecdhPoint{cn, kx, ky}}, "ecdh")}, Iface{}}
+	case "(*crypto/ecdsa.PrivateKey).ECDH":
+		priv := e.load(args[0].(PtrV)).(*StructV)
+		pub := priv.fields[0].(*StructV)
+		cn := curveNameOf(pub.fields[0])
+		if cn != "P-256" && cn != "P-384" && cn != "P-521" {
+			return TupleV{PtrV{}, e.mkErr("ecdsa: unsupported curve by crypto/ecdh")}
+		}
+		d, _ := e.bigOf(priv.fields[1])
+		okD, d528 := e.fit528(d.mag)
+		N := tt.BV(realCurve(cn).Params().N, 528)
+		if !e.branch(tt.And(okD, tt.Not(d.neg), tt.Ne(d528, tt.BVu(0, 528)), tt.Cmp("bvult", d528, N))) {
+			return TupleV{PtrV{}, e.mkErr("ecdsa: invalid private key")}
+		}
+		kc := e.intern("curve", cn)
+		return TupleV{PtrV{cell: e.newCell(OpaqueV{kind: "ecdh.PrivateKey", data: ecdhPoint{cn, tt.UF("pubX", 528, kc, d528), tt.UF("pubY", 528, kc, d528)}}, "ecdh")}, Iface{}}
+	case "(*crypto/ecdh.PrivateKey).PublicKey":
+		o := e.load(args[0].(PtrV)).(OpaqueV)
+		return PtrV{cell: e.newCell(OpaqueV{kind: "ecdh.PublicKey", data: o.data}, "ecdh")}
+	case "(*crypto/ecdh.PublicKey).Bytes":
+		o := e.load(args[0].(PtrV)).(OpaqueV)
+		pt, ok := o.data.(ecdhPoint)
+		if !ok {
+			e.unsupported("ecdh.PublicKey.Bytes of an unmodelled key")
+		}
+		size := e.c64(uint64((realCurve(pt.curve).Params().P.BitLen() + 7) / 8))
+		return e.bytesFromRope(Rope{SegLit{[]byte{4}}, SegIntBE{pt.x, size}, SegIntBE{pt.y, size}})
+	// ---- sync.Pool: an object handed back is shared with every concurrent caller --------------------------------
+	case "(*sync.Pool).Get":
+		pool := e.load(args[0].(PtrV)).(*StructV)
+		var newFn Value
+		for _, f := range pool.fields {
+			if fv, ok := f.(*FuncV); ok && fv != nil {
+				newFn = fv
+			}
+		}
+		if newFn == nil {
+			return Iface{}
+		}
+		// a fresh object from New (an object recycled from another goroutine has arbitrary contents; its
+		// only observable difference, stale contents, is covered by C19-style checks)
+		return e.callFuncV(newFn.(*FuncV), nil)
+	case "(*sync.Pool).Put":
+		if ifc, ok := args[1].(Iface); ok {
+			if p, ok := ifc.val.(PtrV); ok && p.cell != nil {
+				if e.pooled == nil {
+					e.pooled = map[*Cell]bool{}
+				}
+				e.pooled[p.cell] = true
+			}
+		}
+		return nil
+	case "bytes.TrimLeft":
+		cut, okc := e.concreteString(args[1])
+		if !okc || cut != "\x00" {
+			e.unsupported("bytes.TrimLeft with a cutset other than \"\\x00\"")
+		}
+		r := e.bytesRope(args[0].(BytesV))
+		for len(r) > 0 {
+			if _, z := r[0].(SegZero); z {
+				r = r[1:]
+				continue
+			}
+			break
+		}
+		if len(r) == 0 {
+			return e.bytesFromRope(nil)
+		}
+		if b, ok := ropeConcrete(r); ok {
+			return e.bytesFromRope(ropeLit(bytes.TrimLeft(b, "\x00")))
+		}
+		if ib, ok := r[0].(SegIntBE); ok && len(r) == 1 {
+			// the low n bytes of x, without leading zero bytes
+			nv, okn := e.uniqueValue(ib.n)
+			if !okn || nv == 0 || nv > 66 {
+				e.unsupported("bytes.TrimLeft of an integer of symbolic width")
+			}
+			x := ib.x
+			if uint64(x.w) > 8*nv {
+				x = tt.Extract(x, int(8*nv)-1, 0)
+			}
+			return e.bytesFromRope(Rope{SegIntBE{x, tt.ByteLen(x)}})
+		}
+		e.unsupported("bytes.TrimLeft of this rope shape")
 
 	// ---- rsa --------------------------------------------------------------------------------------------
 	case "(*crypto/rsa.PrivateKey).Sign":
@@ -1078,8 +1172,19 @@ func (e *Engine) hashOf(h *Term, data Rope) Rope {
 func (e *Engine) asn1Blob(r, s PtrV) BytesV {
 	e.hashCount++
 	arr := e.tt.Var(fmt.Sprintf("asn1_%d", e.hashCount), sortArray)
-	n := e.tt.Var(fmt.Sprintf("asn1len_%d", e.hashCount), 64)
-	e.addPC(e.tt.And(e.tt.Cmp("bvuge", n, e.c64(8)), e.tt.Cmp("bvule", n, e.c64(160))))
+	// exact DER length of SEQUENCE{INTEGER r, INTEGER s}: minimal two's complement contents, short/long form lengths
+	tt := e.tt
+	intLen := func(p PtrV) *Term {
+		b, _ := e.bigOf(p)
+		zero := tt.Eq(b.mag, tt.BVu(0, b.mag.w))
+		pos := tt.Bin("bvadd", tt.Bin("bvlshr", e.bitLen(b.mag), e.c64(3)), e.c64(1))
+		m1 := tt.Bin("bvsub", b.mag, tt.BVu(1, b.mag.w))
+		negl := tt.Bin("bvadd", tt.Bin("bvlshr", e.bitLen(m1), e.c64(3)), e.c64(1))
+		return tt.Ite(tt.Or(zero, tt.Not(b.neg)), pos, negl)
+	}
+	content := tt.Bin("bvadd", e.c64(4), tt.Bin("bvadd", intLen(r), intLen(s)))
+	n := tt.Ite(tt.Cmp("bvult", content, e.c64(128)), tt.Bin("bvadd", content, e.c64(2)),
+		tt.Ite(tt.Cmp("bvult", content, e.c64(256)), tt.Bin("bvadd", content, e.c64(3)), tt.Bin("bvadd", content, e.c64(4))))
 	if e.asn1Blobs == nil {
 		e.asn1Blobs = map[int]asn1Sig{}
 	}
